@@ -508,6 +508,9 @@ pub enum Fail {
     AssertEq,
     /// a run-time failure in an input that defines nothing (expression statements only)
     ExprRuntime(u8),
+    /// a definition whose name clashes with a name the session itself defined earlier
+    /// (a unit named like a variable or function, a variable named like a unit)
+    SessionNameClash(u8),
 }
 
 pub fn fail_strategy() -> impl Strategy<Value = Fail> {
@@ -527,6 +530,8 @@ pub fn fail_strategy() -> impl Strategy<Value = Fail> {
         Just(Fail::AssertEq),
         (0u8..3).prop_map(Fail::ExprRuntime),
         (0u8..3).prop_map(Fail::ExprRuntime),
+        (0u8..30).prop_map(Fail::SessionNameClash),
+        (0u8..30).prop_map(Fail::SessionNameClash),
     ]
 }
 
@@ -552,6 +557,14 @@ pub fn render_fail(f: Fail, env: &mut Env) -> (String, &'static str) {
             (format!("fn {name}(x: Scalar) -> Scalar = 1 / x\nlet zz_bad = {name}(0)"), "runtime")
         }
         Fail::AssertEq => ("assert_eq(1 m, 2 m)".into(), "runtime"),
+        Fail::SessionNameClash(k) => {
+            let text = match k % 3 {
+                0 => (!env.vars.is_empty()).then(|| format!("unit {}: Length = 2 m", env.vars[(k / 3) as usize % env.vars.len()].0)),
+                1 => (!env.units.is_empty()).then(|| format!("let {} = 1", env.units[(k / 3) as usize % env.units.len()])),
+                _ => (!env.fns.is_empty()).then(|| format!("unit {}: Length = 3 m", env.fns[(k / 3) as usize % env.fns.len()].0)),
+            };
+            (text.unwrap_or_else(|| "let metre = 1".into()), "name")
+        }
         Fail::ExprRuntime(k) => (["2 * (1 / 0)", "error(\"boom\")", "4 km / (2 m - 200 cm) * 0 + 1 / 0"][k as usize % 3].to_string(), "runtime"),
     }
 }
